@@ -358,3 +358,10 @@ package protocol
 //@   requires C13.frame,C15.frame: len(data) >= 6
 //@   ensures result != nil && fresh(result) && result.Data == data && result.DataFlag == data[5] && result.CommandType == data[4] & 0x3f && result.CommandStage == data[4] >> 6
 //@   modifies nothing
+
+// every result code the lock engine sends (0..RESULT_LOCK_ACK_WAITING) has a name in the table the text
+// writers index (C13); the engine side is the pre-condition of ServerProtocol.ProcessLockResultCommand
+//@ func (*TextCommandConverter).WriteTextLockAndUnLockCommandResult
+//@   requires C13.result-code: lockCommandResult != nil && lockCommandResult.Result <= RESULT_LOCK_ACK_WAITING
+//@ func ITextProtocol.GetParser
+//@   preserves *
